@@ -245,7 +245,7 @@ func c12Ops() []string {
 			}
 		}
 		ops = append(ops, fmt.Sprintf("scribble-input:m%d", mi), fmt.Sprintf("config-scribble:m%d", mi), fmt.Sprintf("reconfigure-scribble:m%d", mi), fmt.Sprintf("roundtrip-scribble:m%d", mi),
-			fmt.Sprintf("edit-resubmit:m%d", mi), fmt.Sprintf("detour:m%d", mi), fmt.Sprintf("wrap-while-passthrough:m%d", mi))
+			fmt.Sprintf("edit-resubmit:m%d", mi), fmt.Sprintf("detour:m%d", mi), fmt.Sprintf("wrap-while-passthrough:m%d", mi), fmt.Sprintf("rejected-extension:m%d", mi))
 	}
 	return ops
 }
@@ -256,7 +256,7 @@ func c12ReducedOps(thorough bool) []string {
 	var ops []string
 	for mi := 0; mi < c12N; mi++ {
 		ops = append(ops, fmt.Sprintf("serve:m%d:r2:scribble", mi), fmt.Sprintf("serve:m%d:r1:scribble", mi),
-			fmt.Sprintf("scribble-input:m%d", mi), fmt.Sprintf("config-scribble:m%d", mi), fmt.Sprintf("reconfigure-scribble:m%d", mi), fmt.Sprintf("edit-resubmit:m%d", mi), fmt.Sprintf("detour:m%d", mi))
+			fmt.Sprintf("scribble-input:m%d", mi), fmt.Sprintf("config-scribble:m%d", mi), fmt.Sprintf("reconfigure-scribble:m%d", mi), fmt.Sprintf("edit-resubmit:m%d", mi), fmt.Sprintf("detour:m%d", mi), fmt.Sprintf("rejected-extension:m%d", mi))
 		if thorough {
 			ops = append(ops, fmt.Sprintf("serve:m%d:r7:scribble-preset", mi), fmt.Sprintf("roundtrip-scribble:m%d", mi), fmt.Sprintf("wrap-while-passthrough:m%d", mi))
 		}
@@ -284,6 +284,24 @@ func (w *c12World) apply(op string) error {
 		// the caller owns the response header map after the call for non-preflight requests
 	case "scribble-input":
 		scribbleConfig(&w.inputs[mi])
+	case "rejected-extension":
+		// Reconfigure is called with the current configuration extended - more origins after the current ones (an
+		// attacker's, near misses of the probes' origins, a wildcard over them), one more name at the end of every other
+		// list - and made unacceptable by its very last method: the call must fail, and a failed call changes nothing
+		c := w.lits[mi].Config()
+		c.Origins = append(c.Origins, evilOrigin, "https://attacker.org", "https://*.evil.example", "https://a.b.c.d.e.example")
+		for _, p := range c12Probes() {
+			if o := p.Hdr["Origin"]; len(o) == 1 && strings.HasPrefix(o[0], "https://") && !strings.ContainsAny(o[0][8:], "/ ") && len(c.Origins) < 40 {
+				c.Origins = append(c.Origins, o[0])
+			}
+		}
+		c.Methods = append(c.Methods, "EVIL", "CONNECT")
+		c.RequestHeaders = append(c.RequestHeaders, "x-evil")
+		c.ResponseHeaders = append(c.ResponseHeaders, "x-evil-r")
+		if err := w.m[mi].Reconfigure(&c); err == nil {
+			return fmt.Errorf("Reconfigure accepted a configuration that lists the method CONNECT")
+		}
+		scribbleConfig(&c)
 	case "wrap-while-passthrough":
 		// the middleware is made a passthrough one, a handler is obtained from Wrap and serves the probes, and the
 		// middleware gets its configuration (and debug mode) back: the probes of every later step go through that handler
